@@ -777,6 +777,8 @@ fn gen_force(r: &mut Prng, pct: u64, s: &Snap) -> Option<Vec<u8>> {
 struct GenMem {
     salts: Vec<Vec<u8>>,
     fresh_key: u64,
+    /// the Create / Create2 operation that deployed a contract (to re-deploy it after it died)
+    origin: BTreeMap<u64, IOp>,
 }
 
 fn gen_op(r: &mut Prng, w: &World, s: &Snap, m: &mut GenMem) -> IOp {
@@ -795,6 +797,15 @@ fn gen_op(r: &mut Prng, w: &World, s: &Snap, m: &mut GenMem) -> IOp {
         }
     };
     let salt = |r: &mut Prng, m: &GenMem| -> Vec<u8> { if r.chance(85) { r.pick(&m.salts).clone() } else { r.bytes(32) } };
+    // re-deploy a self-destructed contract at the same address (same deployer and nonce / salt)
+    let dead: Vec<u64> = evm.iter().filter(|(i, a)| a.evm.as_ref().unwrap().tomb.is_some() && m.origin.contains_key(i)).map(|(i, _)| *i).collect();
+    if !dead.is_empty() && r.chance(if dead.len() > 2 { 12 } else { 7 }) {
+        let mut op = m.origin[r.pick(&dead)].clone();
+        if let IOp::EamCreate { ic, .. } = &mut op {
+            if r.chance(50) { *ic = gen_icode(r, 1) }
+        }
+        return op;
+    }
     let roll = r.below(100);
     // bootstrap: make sure there is a factory early on
     if live_fac.is_empty() && roll < 45 {
@@ -843,7 +854,7 @@ fn gen_op(r: &mut Prng, w: &World, s: &Snap, m: &mut GenMem) -> IOp {
         }
         48..=55 => {
             let from = if !evm.is_empty() && r.chance(90) { r.pick(&evm).0 } else { user(r) };
-            IOp::EamCreate2 { from, salt: salt(r, m), ic: if r.chance(60) { ICode::Kill } else { gen_icode(r, 1) }, force: gen_force(r, 6, s) }
+            IOp::EamCreate2 { from, salt: salt(r, m), ic: match r.below(100) { 0..=44 => ICode::Kill, 45..=69 => ICode::Factory, _ => gen_icode(r, 1) }, force: gen_force(r, 6, s) }
         }
         56..=66 => {
             let code = match r.below(100) {
@@ -1098,7 +1109,7 @@ fn run_case(pc: &ICase, stats: &mut Stats, genr: Option<(&mut Prng, usize)>) -> 
     let (mut acc, mut rej) = (false, false);
     let mut genr = genr;
     let n = match &genr { Some((_, n)) => *n, None => pc.ops.len() };
-    let mut mem = GenMem { salts: (1u8..=3).map(|k| vec![k; 32]).collect(), fresh_key: 0 };
+    let mut mem = GenMem { salts: (1u8..=3).map(|k| vec![k; 32]).collect(), fresh_key: 0, origin: BTreeMap::new() };
     for i in 0..n {
         let op = match &mut genr { Some((r, _)) => gen_op(r, &w, &snap, &mut mem), None => pc.ops[i].clone() };
         if !snap.actors.contains_key(&op_from(&op)) {
@@ -1137,6 +1148,11 @@ fn run_case(pc: &ICase, stats: &mut Stats, genr: Option<(&mut Prng, usize)>) -> 
         }
         match &op { IOp::EamCreate { force: Some(_), .. } | IOp::EamCreate2 { force: Some(_), .. } | IOp::EamCreateExternal { force: Some(_), .. } | IOp::Invoke { force: Some(_), .. } => bump(&format!("forced_digest_code_{}", out.code)), _ => {} }
         bump(&format!("preimages_{}", out.log.len().min(4)));
+        if let (RetObs::Eam(id, _, _), IOp::EamCreate { .. } | IOp::EamCreate2 { .. }) = (&out.ret, &op) {
+            let mut o2 = op.clone();
+            match &mut o2 { IOp::EamCreate { force, .. } | IOp::EamCreate2 { force, .. } => *force = None, _ => {} }
+            mem.origin.insert(*id, o2);
+        }
         steps.push((coq_op(&op, &out), obs(&snap, &post, &out)));
         snap = post;
     }
